@@ -355,13 +355,24 @@ def forbidden(draw):
     return {'kind': kind, 'fs': {'segments': segs + [bad]}}
 
 
+@st.composite
+def long_history(draw):
+    """100+ short segments (twin channels whose per-segment counts agree for ~100 segments) in a compressed encoding"""
+    fs = draw(S.twin_long_file())
+    n = len(fs['segments'])
+    picks = draw(st.lists(st.integers(0, 10 ** 6), min_size=n, max_size=n))
+    return {'fs': fs, 'picks': picks, 'check_explicit': False, 'trim': None}
+
+
 def jobs(tier):
     if tier == 'quick':
         return [Job('exhaustive_2seg_2ch', 'enum', enum_cases(2), exhaustive=True,
                     note='all histories of 2 segments x 2 channels x n in {1,2} x chunks in {1,2} x both orders, all plans'),
                 Job('random_histories', 'hyp', lambda: history(), n=5000),
+                Job('long_histories', 'hyp', long_history, n=40, note='100-140 segments, compressed encodings, twin channels'),
                 Job('forbidden', 'hyp', forbidden, n=1500, check=check_forbidden)]
     return [Job('exhaustive_3seg_2ch', 'enum', enum_cases(3), exhaustive=True,
                 note='all histories of 3 segments x 2 channels x n in {1,2} x chunks in {1,2} x both orders, all plans'),
             Job('random_histories', 'hyp', lambda: history(), n=150000),
+            Job('long_histories', 'hyp', long_history, n=1500),
             Job('forbidden', 'hyp', forbidden, n=20000, check=check_forbidden)]
